@@ -9,6 +9,9 @@ for d in sorted(glob.glob(os.path.join(V, "seeded", "C*_m*"))):
     prop, mn = name.split("_")
     res = json.load(open(os.path.join(d, "result.json")))
     readme_src = "/tmp/mut_%s/out/README.md" % prop
+    if mn.startswith("r2"):          # second round of seeded changes
+        mn = mn[2:]
+        readme_src = "/tmp/mut2_%s/out/README.md" % prop
     readme_dst = os.path.join(d, "AUTHOR_README.md")
     if os.path.exists(readme_src):
         shutil.copy(readme_src, readme_dst)
